@@ -504,6 +504,16 @@ let eval_mode () =
            let alts = dedup (List.map (fun o -> String.concat " " (render mem_machine ops o)) res) in
            let all_blocked = res <> [] && List.for_all (fun (s, _) -> match s with Blocked _ -> true | _ -> false) res in
            let verdict = oracle true cap maxkb prefix ops ~all_blocked outs in
+           (* bounded search for the unproved quiescence statement (mem_quiescent_accounting_stmt), on the MODEL:
+              at all_done the enforcer's book is exactly the live messages, curSize their total, total <= max *)
+           let quiescent_ok (st : msys) =
+             st.s_max = None ||
+             (let live = List.sort compare (List.concat_map (fun (_, x) -> List.map (fun m -> int_of_n m.m_tag) x.x_box.b_msgs) st.s_boxes) in
+              let book = List.sort compare (List.map (fun (_, m) -> int_of_n m.m_tag) st.s_enf.e_all) in
+              let total = List.fold_left (fun a (_, m) -> a + int_of_n m.m_size) 0 st.s_enf.e_all in
+              live = book && int_of_z st.s_enf.e_cur = total && total <= maxkb * 1024) in
+           let verdict = if verdict = "ok" && List.exists (fun (s, r) -> s = Fin && not (quiescent_ok r.st)) res
+             then "fail:model-quiescence-statement-refuted" else verdict in
            print_string (String.concat " || " alts); print_string " ## "; print_string verdict; print_char '\n')
         (fun g prefix ops sched outs ->
            let st = file_init g prefix ops in
